@@ -443,6 +443,7 @@ type workerState struct {
 	rerequests int
 	// Clock tick at which the last call that has returned was started.
 	lastReturnedCallStart int
+	prevReturnedCallStart int
 	returnedCalls         int
 	callStart             int
 	// in-flight request
@@ -557,6 +558,9 @@ func (a *actor) runWorker() {
 		wk.callStart = w.clock.tick()
 		if wk.assigned != nil && !claims {
 			wk.rerequests++
+			if ti := w.mon.tasks[wk.assignedTask]; ti != nil && wk.rerequests > ti.maxRerequests {
+				ti.maxRerequests = wk.rerequests
+			}
 		}
 		a.resetOnDone = a.workerTag() + "/sel"
 		w.mu.Unlock()
